@@ -749,6 +749,19 @@ hdf_get_vp_aid(NC *handle, NC_var *vp)
         if (!IS_RECVAR(vp)) {
             vp->aid = Hstartaccess(handle->hdf_file, vp->data_tag, vp->data_ref, DFACC_WRITE);
             if (vp->aid != FAIL && vp->set_length == TRUE) {
+                int32 cur_length = 0;
+
+                /* The request to pre-size the element (SDwritedata, no-fill
+                   mode) is only meant for an element that has no length yet.
+                   It may still be pending when the element has been written
+                   meanwhile through an access that existed before the request
+                   (e.g. attached by an earlier read): then there is nothing
+                   left to do, and Hsetlength would refuse. */
+                if (Hinquire(vp->aid, NULL, NULL, NULL, &cur_length, NULL, NULL, NULL, NULL) != FAIL &&
+                    cur_length > 0)
+                    vp->set_length = FALSE;
+            }
+            if (vp->aid != FAIL && vp->set_length == TRUE) {
                 if (Hsetlength(vp->aid, vp->len) == FAIL) {
                     /* the element could not be given its length: no access */
                     Hendaccess(vp->aid);
